@@ -95,6 +95,15 @@ func generate(ld *Loaded, cs *Contracts, fc *FuncContract) (res *FuncResult) {
 		}
 		ex.rg.init(top, st)
 	}
+	for _, gl := range fc.GhostLocals {
+		env := ex.specEnv(top, st, st)
+		v := env.eval(gl.Init)
+		if sc, ok := v.V.(Sc); ok {
+			st.vars["gl!"+gl.Name] = sc.T
+		} else {
+			cx.unsup("ghostlocal %s: initial value is not a scalar", gl.Name)
+		}
+	}
 	ex.entry = st.clone()
 	// preconditions
 	for _, cl := range fc.Requires {
